@@ -102,7 +102,7 @@ Lemma prun_value d : NoDup (map fst d) -> forall ops st k,
 Proof.
   intros Hnd. unfold prun.
   induction ops as [|o ops IH]; intros st k; simpl; [reflexivity|].
-  rewrite IH. destruct o as [k' v|k'|]; simpl.
+  rewrite IH. destruct o as [k' v|k'| |k']; simpl.
   - unfold pset. destruct (key_ok k') eqn:Ek; simpl.
     + rewrite andb_true_r. destruct (String.eqb k k') eqn:E.
       * rewrite last_set_acc. destruct (last_set ops k None); [reflexivity|].
@@ -113,7 +113,13 @@ Proof.
   - destruct (pget d st k') as [[v st']|e] eqn:Eg; simpl; [|reflexivity].
     destruct (pget_spec d st k' v st' Eg) as [_ H]. rewrite H. reflexivity.
   - rewrite pinit_spec by exact Hnd. reflexivity.
+  - reflexivity.
 Qed.
+
+(* a refused write leaves the file as it was, whatever the key *)
+Lemma refused_write_keeps d st k : fst (pstep d st (PSetBad k)) = st /\
+  exists e, snd (pstep d st (PSetBad k)) = Err e.
+Proof. simpl. split; [reflexivity | eexists; reflexivity]. Qed.
 
 (* ---- fit parameters --------------------------------------------------------------------------- *)
 Lemma get_fit_params_spec md st p dv dy :
